@@ -52,7 +52,8 @@ TECHNIQUE = "bounded-exhaustive enumeration of source texts (token sequences + e
 ASSUMPTIONS = ["a 3 s CPU budget per small case and 10 s per pumped case stand in for 'time bounded by input size and limits'"]
 
 LIMITS = {"loop_iteration_limit": 1000, "output_stream_limit": 10_000, "local_namespace_limit": 100_000}
-PARTIALS = {"p": "{{ a }}{% block b %}P{% endblock %}", "q": "{% for i in a %}{{ i }}{% endfor %}", "a": "A", "1": "one"}
+PARTIALS = {"p": "{{ a }}{% block b %}P{% endblock %}", "q": "{% for i in a %}{{ i }}{% endfor %}", "a": "A", "1": "one",
+            "pm": "{% macro m %}{% extends 'p' %}{% endmacro %}"}
 
 _ENVS: dict[str, Any] = {}
 
@@ -61,6 +62,10 @@ def envs() -> dict[str, Any]:
     if not _ENVS:
         _ENVS["default"] = impl.make_env(limits=LIMITS, templates=PARTIALS)
         _ENVS["shopify"] = impl.make_env(limits=LIMITS, templates=PARTIALS, shopify=True, shorthand=True, auto_escape=True)
+        # a caching loader whose cache namespace is the render variable `a` (any data value can end up in the cache key)
+        from liquid2 import CachingDictLoader
+
+        _ENVS["nscache"] = impl.make_env(limits=LIMITS, loader=CachingDictLoader(dict(PARTIALS), namespace_key="a"))
     return _ENVS
 
 
@@ -91,6 +96,7 @@ DATASETS = [
     {"a": float("nan"), "b": 10**400, "x": deep(6), "y": float("inf"), "z": "50%"},
     {"a": "str", "b": [None, {"k": 1}], "x": -3, "y": "1e400", "z": [[], {}]},
     {"a": 10**5000, "b": [10**5000], "x": {"k": 10**5000}, "y": -(10**5000), "z": 10**4300},
+    {"a": "x" * 5000, "b": [1, 2], "x": "s", "y": 2, "z": "a/" * 600, "translations": 1, "user-name": "U", "a×b": "V"},
 ]
 
 
@@ -317,6 +323,111 @@ def pumps() -> list[str]:
     return out
 
 
+# ------------------------------------------------------------------ concurrent renders: totality under every interleaving
+
+HUGE = "9" * 5000
+HUGE_SOURCES = [
+    "{{ " + HUGE + " }}", "{{ -" + HUGE + " }}", "{{ x | plus: -" + HUGE + " }}", "{% for i in (1..-" + HUGE + ") %}{{ i }}{% endfor %}",
+    "{{ a[" + HUGE + "] }}", "{{ a[-" + HUGE + "] }}", "{{ 1." + HUGE + " }}", "{{ " + HUGE + "e5 }}", "{{ 1e" + HUGE + " }}", "{{ -1e-" + HUGE + " }}",
+    "{{ a." + HUGE + " }}", "{% if x > -" + HUGE + " %}y{% endif %}", "{% for i in a limit: -" + HUGE + " offset: " + HUGE + " %}{% endfor %}",
+    "{% case x %}{% when -" + HUGE + " %}{% endcase %}", "{% cycle " + HUGE + ", -" + HUGE + " %}", "{{ '" + HUGE + "' | plus: 1 }}", "{{ '-" + HUGE + "' | abs }}",
+    "{% assign y = -" + HUGE + " %}{{ y }}", "{{ (1..3) | slice: -" + HUGE + " }}", "{{ 1e4300 }}", "{{ -1e4300 }}", "{{ 12e4299 }}", "{{ 1e4299 | size }}",
+]  # fmt: skip
+
+# inputs behind repaired defects (kept in the corpus so that each stays decided)
+REGRESSION_SOURCES = [
+    "{% if 'abc' contains a %}y{% endif %}{% if a in 'abc' %}y{% endif %}", "{{ a | map: x: 1 => 2 }}", "{{ a | where: x: 'k' => x }}",
+    "{% assign r = (0..9223372036854775807) %}{{ r.size }}{{ r.first }}{{ r.last }}", "{{ (1..a).size }}{% assign r = (1..a) %}{{ r.size }}",
+    "{{ 'a' | t }}{{ 'a' | gettext }}{{ 'a' | ngettext: 'b', 2 }}{{ 'a' | pgettext: 'c' }}{{ 'a' | npgettext: 'c', 'b', 2 }}", "{% translate %}a{% endtranslate %}",
+    "{{ b | join: environment: 1 }}", "{{ 'a' | t: context: 1 }}", "{{ 'x' | escape: environment: b }}", "{{ 'now' | date: '%Y', environment: x }}", "{{ b | map: i => i, context: 2 }}",
+    "{{ '<![ab[x]]>' | strip_html }}{{ '<![if IE]>x<![endif]>' | strip_html }}{{ '<!x' | strip_html }}{{ '<?php ?>' | strip_html }}",
+    "{% translate %}Hello {{ user-name }}{% endtranslate %}", "{% translate %}{{ a×b }} 100%{% endtranslate %}",
+    "{% include 'pm' %}{% call m %}", "{% macro m2 %}{% extends 'p' %}{% endmacro %}{% call m2 %}",
+    "{% for i in b %}{% for k in forloop %}{{ k }}{% endfor %}{% endfor %}", "{% for i in b %}{{ forloop | json }}{{ forloop | size }}{{ forloop | first }}{% endfor %}",
+    "{% include a %}{% include z %}{% render 'p' for a %}", "{% translate context: a %}m{% endtranslate %}{% translate count: a %}m{% plural %}ms{% endtranslate %}",
+    "{% translate %}{% endtranslate %}", "{{ l[a] }}{{ b[a] }}{{ x[a] }}",
+]  # fmt: skip
+
+SCHED_PARTS = {"part": "P{{ x }}", "other": "O"}
+SCHED_JOBS = ["{% include 'part' %}", "{% render 'part' %}", "{% include 'other' %}{% include 'part' %}", "{% include 'missing' %}", "{% include 'part' %}{{ 1 | divided_by: 0 }}"]
+
+
+def _sched_env(stale: bool) -> Any:
+    """A caching loader whose freshness check and source lookup really suspend; optionally with 'part' cached and stale."""
+    import asyncio
+
+    from liquid2.loader import BaseLoader
+    from liquid2 import Environment
+    from liquid2.builtin.loaders.mixins import CachingLoaderMixin
+    from liquid2.exceptions import TemplateNotFoundError
+    from liquid2.loader import TemplateSource
+
+    versions = {"part": 1}
+
+    class SlowLoader(CachingLoaderMixin, BaseLoader):
+        def __init__(self) -> None:
+            super().__init__(auto_reload=True)
+
+        def get_source(self, env: Any, template_name: str, *, context: Any = None, **kw: Any) -> Any:
+            if template_name not in SCHED_PARTS:
+                raise TemplateNotFoundError(template_name)
+            v = versions.get(template_name, 0)
+            return TemplateSource(SCHED_PARTS[template_name], template_name, lambda: versions.get(template_name, 0) == v)
+
+        async def get_source_async(self, env: Any, template_name: str, *, context: Any = None, **kw: Any) -> Any:
+            await asyncio.sleep(0)
+            if template_name not in SCHED_PARTS:
+                raise TemplateNotFoundError(template_name)
+            v = versions.get(template_name, 0)
+
+            async def uptodate() -> bool:
+                await asyncio.sleep(0)
+                return versions.get(template_name, 0) == v
+
+            return TemplateSource(SCHED_PARTS[template_name], template_name, uptodate)
+
+    env = Environment(loader=SlowLoader())
+    return env, versions
+
+
+def check_schedule(combo: tuple[int, ...], stale: bool, res: ShardResult | None, max_runs: int = 20000) -> list[tuple[str, Any, Any, Any]]:
+    from mc.vloop import VLoop
+    from mc.vloop import explore
+    from mc.vloop import run_solo
+
+    out: list[tuple[str, Any, Any, Any]] = []
+    seen: set[str] = set()
+
+    def run(loop: VLoop) -> Any:
+        env, versions = _sched_env(stale)
+        if stale:
+            # warm the cache on a throw-away loop, then make the entry stale
+            run_solo(env.get_template_async("part"))
+            versions["part"] = 2
+        return loop.run_all([env.from_string(SCHED_JOBS[i]).render_async(x=1) for i in combo])
+
+    def on_run(loop: VLoop, result: Any) -> None:
+        if res is not None:
+            res.evaluations += 1
+            res.transitions += loop.steps
+            res.states.add(h64([combo, stale, loop.choices]))
+            if any(loop.choices):
+                res.nontrivial.add(h64([combo, stale, loop.choices]))
+        for i, (kind, val) in enumerate(result):
+            if kind != "ok" and not isinstance(val, LiquidError):
+                sig = f"C02:foreign-exception:concurrent-render:{type(val).__name__}"
+                if sig not in seen:
+                    seen.add(sig)
+                    out.append((sig, {"kind": "sched", "jobs": list(combo), "stale": stale, "schedule": list(loop.choices), "task": i}, "output or LiquidError", f"{type(val).__name__}: {val}"[:200]))
+            if res is not None:
+                res.outcomes.add(h64([kind, type(val).__name__]))
+
+    stats = explore(run, max_runs=max_runs, on_run=on_run)
+    if res is not None and stats["capped"]:
+        res.capped = True
+    return out
+
+
 # ------------------------------------------------------------------ harness interface
 
 _SP: dict[str, Any] = {}
@@ -333,6 +444,7 @@ def _prepare(tier: str) -> None:
     else:
         corp_m = corp
         inserts = c17.SIGMA
+    corp = list(corp) + HUGE_SOURCES + REGRESSION_SOURCES
     _SP.update(tier=tier, corpus=corp, corp_m=corp_m, inserts=inserts, pumps=pumps())
 
 
@@ -365,19 +477,25 @@ def plan(tier: str, seed: int):
     for lo, hi in chunks(len(_SP["pumps"]), 64):
         shards.append(("pump", tier, lo, hi))
     total += len(_SP["pumps"])
+    k_tasks = 2 if tier == "quick" else 3
+    combos = list(itertools.combinations_with_replacement(range(len(SCHED_JOBS)), k_tasks))
+    for c in combos:
+        for stale in (False, True):
+            shards.append(("sched", tier, c, stale))
+    total += 2 * len(combos)
     # long-running shards first (value sites contain the time-outs, pumps the 10 s budgets)
-    order = {"site": 0, "pump": 1, "corpus": 2, "mutants": 3, "sigma": 4}
+    order = {"site": 0, "pump": 1, "corpus": 2, "mutants": 3, "sigma": 4, "sched": 2}
     shards.sort(key=lambda sh: order[sh[0]])
     meta = {
         "space_size": total,
-        "subspaces": {"sigma": sum((m**kk) * (1 if kk <= 1 else 2) for kk in range(k + 1)), "corpus": len(_SP["corpus"]), "mutants": nm,
+        "subspaces": {"sigma": sum((m**kk) * (1 if kk <= 1 else 2) for kk in range(k + 1)), "corpus": len(_SP["corpus"]), "mutants": nm, "concurrent-render-sets": 2 * len(combos),
                       "value-sites": len(sites), "values": len(VALL), "pumps": len(_SP["pumps"])},
         "bounds": {"sigma_len": k, "value_depth": 2 if tier == "quick" else 3, "pump_k": 3000, "limits": LIMITS},
     }
     return shards, meta
 
 
-def _sources(res: ShardResult, srcs, env_names=("default", "shopify"), datasets=None, budget: float = 3.0) -> None:
+def _sources(res: ShardResult, srcs, env_names=("default", "shopify", "nscache"), datasets=None, budget: float = 3.0) -> None:
     datasets = datasets or DATASETS[:2]
     for src in srcs:
         res.cases += 1
@@ -406,6 +524,10 @@ def run_shard(shard) -> ShardResult:
             res.violation(sig, {"kind": "site", "tier": tier, **case}, exp, obs, repro=_repro_site(case))
         if shard[2] % 17 == 0:
             res.samples.append({"site": site, "values": "all of V u V+"})
+    elif kind == "sched":
+        res.cases += 1
+        for sig, case, exp, obs in check_schedule(shard[2], shard[3], res):
+            res.violation(sig, {"tier": tier, **case}, exp, obs)
     else:
         _sources(res, _SP["pumps"][shard[2] : shard[3]], env_names=("default",), datasets=DATASETS[:1], budget=10.0)
     return res
@@ -434,6 +556,9 @@ def replay(case: dict[str, Any]) -> list[dict[str, Any]]:
         budget = 10.0 if len(case["source"]) > 2000 else 3.0
         for sig, extra, obs in run_source(case["env"], case["source"], DATASETS, None, budget):
             res.violation(sig, case, "returns or raises a printable LiquidError in time", obs)
+    elif case["kind"] == "sched":
+        for sig, c, exp, obs in check_schedule(tuple(case["jobs"]), case["stale"], None):
+            res.violation(sig, case, exp, obs)
     else:
         site = case["site"]
         arity = next(a for s, a in sites_for(case.get("tier", "quick")) if s == site)
